@@ -455,3 +455,12 @@ def _reresolve(ex, st, s2, r):
             if c is r.cell:
                 return Ref(fb[k], r.path)
     raise Unsupported("reference target not found after fork")
+
+
+# ---- std::mem
+@model(r"^(?:std|core)::mem::replace::<.*>$")
+def m_mem_replace(ex, m, args, tys, st, fn):
+    r, new = args
+    old = ex.deref(r)
+    ex.write_ref(r, new)
+    return [(st, old)]
